@@ -79,6 +79,11 @@ def configs(tier):
     for mb, mk, mdt in (('flat', 3, 'int16'), ('flat', 1, 'float32'), ('npy', 1, 'float64'), ('array', 1, 'int16'),
                         ('cbin', 1, 'int16')):
         out.append({'backend': 'meta', 'meta_backend': mb, 'K': mk, 'nc': 2, 'dtype': mdt, 'item': 'meta', 'sel': None})
+    # the loader always passes dtype=...: on self-describing backends the reader's dtype is the array's
+    out.append({'backend': 'meta', 'meta_backend': 'npy', 'K': 1, 'nc': 2, 'dtype': 'float32', 'item': 'meta',
+                'sel': None, 'dtype_kw': 'int16'})
+    out.append({'backend': 'meta', 'meta_backend': 'array', 'K': 1, 'nc': 2, 'dtype': 'int16', 'item': 'meta',
+                'sel': None, 'dtype_kw': 'float64'})
     return out
 
 
@@ -146,9 +151,9 @@ def run_config(cfg, e):
             info = lambda ev: {'item': [kind[:-1], ev(xs)]}
             e.prefer.append(xs[-1] <= 40)
         sel = _mksel(cfg['sel'])
-        e.case_builder = lambda ev: dict(rec.case(ev), sel=cfg['sel'], **info(ev))
+        e.case_builder = lambda ev: dict(rec.case(ev), sel=cfg['sel'], dtype_kw=cfg.get('dtype_kw'), **info(ev))
         try:
-            reader = rec.make_reader(pkg)
+            reader = rec.make_reader(pkg, dtype_kw=cfg.get('dtype_kw'))
             if kind == 'meta':
                 e.prove(reader.n_samples == n, 'n_samples')
                 e.prove(reader.shape[0] == n, 'shape[0]')
@@ -188,7 +193,7 @@ def run_config(cfg, e):
 def replay(case):
     rr = RealRecording(case)
     try:
-        r = rr.reader()
+        r = rr.reader(dtype_kw=case.get('dtype_kw'))
         concat = rr.data
         it = case['item']
         if it[0] == 'int':
